@@ -19,7 +19,8 @@ TECHNIQUE = "runtime post-condition monitor vs pointwise definitional oracle + a
 RULE = ("case = series 2..60 points with x of non-zero origin in >= 80% x trend family {polynomial to degree 3, sinusoid, "
         "constant, callable returning numpy scalar} x normalized flag, or shift / scale / normalise with random "
         "arguments, through functions (list / int / array containers) and through the Weaver. non-trivial: the map is "
-        "not the identity on the series; distinct by case index.")
+        "not the identity on the series; distinct by case index."
+        " Also: trend / normalise through the Weaver after random histories and after negative scales, integer-dtype data (int32, int64, uint8, uint16) with integer-typed target ranges, target ranges ending exactly at 0, documented defaults by omission.")
 REQUIRED_MONITORS = ["c14:trend", "c14:trend_additive", "c14:shift_scale", "c14:normalize"]
 ASSUMPTIONS = ["scale != 0, min_val < max_val, non-constant array for normalise"]
 NSHARDS = 16
